@@ -133,9 +133,7 @@ class VCSStrategyGit(VCSStrategy):
         result = execute_command(command, _LOGGER, cwd=self.root)
         # The final element may be an empty string. Filter it.
         submodule_entries = [
-            entry
-            for entry in os.fsdecode(result.stdout).split("\0")
-            if entry
+            entry for entry in os.fsdecode(result.stdout).split("\0") if entry
         ]
         # Each entry looks a little like 'submodule.submodule.path\nmy_path'.
         # A malformed .gitmodules may hold a path key without a value.
